@@ -19,7 +19,11 @@ Reading of the code that is mirrored (with the repairs of fixes/C06-*.diff appli
 * timing columns are not modelled (the harness removes them).
 `V` = opaque values (contexts, actions, extra fields, kwargs) with decidable equality
 (Python `==`), `R` = reward-function objects with an evaluation map (`RewardFn`).
+
+PMF answers: `SafeLearner` turns a PMF over the action list into (action, probability) by drawing with its own
+`CobaRandom(seed)` — `Coba.C05.choicew` of the finished C05 model; see `wrapPmf`.
 -/
+import CobaVerif.Model.C05
 
 namespace Coba.C06
 
@@ -475,6 +479,168 @@ def evaluate [DecidableEq V] [RewardFn R V] (c : Config) (L : Learner σ V) (bs 
       match bs with
       | some n => Outcome.ofExcept (runChunks c fl L true s [] [] (chunks n env))
       | none => Outcome.ofExcept (runChunks c fl L false s [] [] (chunks 1 env))
+
+/-! ## `CobaContext.learning_info`
+
+A learner may write to the global dict `CobaContext.learning_info` while it predicts or learns.  `_results` clears
+it before the loop, and after every loop pass does `if info: out.update(info); info.clear()` (before `if out: yield
+out`).  Modelled for un-batched evaluation: what `predict`/`learn` write is a function of the learner state and the
+call's arguments (`pinfo`, `linfo`); `learn`'s `update` goes on top of `predict`'s.  (In a batched pass the dict is
+merged into the batch row and `Unbatch` then indexes every value that happens to be subscriptable — not modelled.) -/
+
+structure InfoLearner (σ V : Type) extends Learner σ V where
+  pinfo : σ → Option V → Option (List V) → Dict V
+  linfo : σ → Option V → Option V → Option Rat → Option Rat → Dict V → Dict V
+
+/-- `a.update(b)` -/
+def Dict.update {α : Type} (a b : Dict α) : Dict α := b.foldl (fun d kv => d.set kv.1 kv.2) a
+
+/-- `out.update(info)`: the info values become cells of the row -/
+def mergeInfo (out : Row V R) (info : Dict V) : Row V R :=
+  info.foldl (fun o kv => o.set kv.1 (Cell.val (some kv.2))) out
+
+/-- what one un-batched loop pass computes before `learn` is called: the learner state after predict/score, the
+calls so far, the learn arguments (if `learn` is not None) and the row -/
+structure Pass (σ V R : Type) where
+  s0 : σ
+  s2 : σ
+  calls : List (Call V)
+  ctx : Option V
+  acts : Option (List V)
+  la : Option (Option V × Option Rat × Option Rat × Dict V)
+  out : Row V R
+
+def passOf [DecidableEq V] [RewardFn R V] (c : Config) (fl : Flags) (L : Learner σ V) (s : σ) (d : Dict (Fld V R)) :
+    Except Err (Pass σ V R) :=
+  (prep c fl d).bind fun r =>
+    let sp := shouldPred c L.hasScore
+    let scoreBased := c.eval == .ips && L.hasScore && !sp
+    let s1 := if sp then (L.predict s r.ctx r.acts).1 else s
+    let p := if sp then some (L.predict s r.ctx r.acts).2 else none
+    let c1 := if sp then [Call.predict r.ctx r.acts] else []
+    let s2 := if scoreBased then (L.score s1 r.ctx r.acts r.offAct).1 else s1
+    let sc := if scoreBased then some (L.score s1 r.ctx r.acts r.offAct).2 else none
+    let c2 := if scoreBased then [Call.score r.ctx r.acts r.offAct] else []
+    (if c.eval != .none then (evalReward scoreBased r p sc).map some else .ok none).bind fun er =>
+    (if c.learn != .none then (learnArgs c r p).map some else .ok none).bind fun la =>
+    (mkRow c fl sp false r p er).map fun out =>
+      { s0 := s, s2 := s2, calls := c1 ++ c2, ctx := r.ctx, acts := r.acts, la := la, out := out }
+
+def Pass.learnState (L : Learner σ V) (k : Pass σ V R) : σ :=
+  match k.la with
+  | some a => L.learn k.s2 k.ctx a.1 a.2.1 a.2.2.1 a.2.2.2
+  | none => k.s2
+
+def Pass.allCalls (k : Pass σ V R) : List (Call V) :=
+  k.calls ++ (match k.la with
+    | some a => [Call.learn k.ctx a.1 a.2.1 a.2.2.1 a.2.2.2]
+    | none => [])
+
+/-- the info written during the pass: by `predict` (if it was called), then `update`d by `learn` (if it was called) -/
+def Pass.info (c : Config) (L : InfoLearner σ V) (k : Pass σ V R) : Dict V :=
+  Dict.update (if shouldPred c L.hasScore then L.pinfo k.s0 k.ctx k.acts else [])
+    (match k.la with
+      | some a => L.linfo k.s2 k.ctx a.1 a.2.1 a.2.2.1 a.2.2.2
+      | none => [])
+
+/-- one un-batched loop pass with `learning_info`: new learner state, calls, the row before the info is merged, and
+the info the learner wrote during this pass -/
+def stepI [DecidableEq V] [RewardFn R V] (c : Config) (fl : Flags) (L : InfoLearner σ V) (s : σ) (d : Dict (Fld V R)) :
+    Except Err (σ × List (Call V) × Row V R × Dict V) :=
+  (passOf c fl L.toLearner s d).map fun k => (k.learnState L.toLearner, k.allCalls, k.out, k.info c L)
+
+def runI [DecidableEq V] [RewardFn R V] (c : Config) (fl : Flags) (L : InfoLearner σ V) :
+    σ → List (Dict (Fld V R)) → Except Err (σ × List (Call V) × List (Row V R) × List (Dict V))
+  | s, [] => .ok (s, [], [], [])
+  | s, d :: ds =>
+    (stepI c fl L s d).bind fun r1 =>
+    (runI c fl L r1.1 ds).map fun r2 => (r2.1, r1.2.1 ++ r2.2.1, r1.2.2.1 :: r2.2.2.1, r1.2.2.2 :: r2.2.2.2)
+
+/-- the rows that are yielded: info merged into each interaction's own row, empty rows dropped -/
+def yieldRows (bases : List (Row V R)) (infos : List (Dict V)) : List (Row V R) :=
+  (List.zipWith mergeInfo bases infos).filter (fun o => !o.isEmpty)
+
+/-- un-batched `evaluate` for a learner that writes `learning_info`: state, calls, yielded rows and, per interaction,
+the row before merging and the info written -/
+def evaluateI [DecidableEq V] [RewardFn R V] (c : Config) (L : InfoLearner σ V) (env : List (Dict (Fld V R))) (s : σ) :
+    Outcome (σ × List (Call V) × List (Row V R) × List (Row V R) × List (Dict V)) :=
+  match env with
+  | [] => .ok (s, [], [], [], [])
+  | first :: _ =>
+    let miss := missingKeys c L.hasScore first
+    if !miss.isEmpty then .rejected miss
+    else Outcome.ofExcept ((runI c (mkFlags first) L s env).map
+      (fun r => (r.1, r.2.1, yieldRows r.2.2.1 r.2.2.2, r.2.2.1, r.2.2.2)))
+
+/-- the same learner not writing anything -/
+def InfoLearner.silent (L : InfoLearner σ V) : InfoLearner σ V :=
+  { L with pinfo := fun _ _ _ => [], linfo := fun _ _ _ _ _ _ => [] }
+
+/-! ## PMF answers
+
+A learner may answer `predict` with a PMF over the action list (explicitly `{'pmf': […]}`, optionally with kwargs).
+`SafeLearner._parse_pred` then draws `a, p = self._rng.choicew(actions, pmf)` with the generator it was constructed
+with (`CobaRandom(seed)`, fresh for every `evaluate`) and hands `(a, p, kwargs)` to the evaluator.  As far as the
+evaluator is concerned such a learner is an ordinary `Learner` whose state also holds the wrapper's generator state:
+`wrapPmf`.  The draw is the finished C05 model's `choicew` (exact rationals; C05's theorems say that for a
+non-negative PMF of the right length with positive sum the draw succeeds and has positive weight, and that the
+reported probability is that weight).  Assumption stated here: on a PMF for which `choicew` fails the real code
+raises; the wrapper then answers `dflt` with no probability — unreachable for valid PMFs, which is all the harness
+generates.  Recognising *un-hinted* PMFs among the prediction formats is C15's subject. -/
+
+structure PmfLearner (σ V : Type) where
+  hasScore : Bool
+  predict : σ → Option V → Option (List V) → σ × List Rat × Dict V
+  score : σ → Option V → Option (List V) → Option V → σ × Rat
+  learn : σ → Option V → Option V → Option Rat → Option Rat → Dict V → σ
+
+/-- `SafeLearner._parse_pred` on a PMF answer: generator state `g` in, parsed prediction and new generator state out -/
+def parsePmf (dflt : V) (acts : Option (List V)) (pmf : List Rat) (kw : Dict V) (g : Nat) : Pred V × Nat :=
+  match acts with
+  | some as =>
+    match Coba.C05.choicew g as.length (some pmf) with
+    | .ok (g', i, w) => ({ action := as.getD i dflt, prob := some w, kw := kw }, g')
+    | .error _ => ({ action := dflt, prob := none, kw := kw }, g)
+  | none => ({ action := dflt, prob := none, kw := kw }, g)
+
+/-- the PMF learner as the evaluator sees it through SafeLearner -/
+def wrapPmf (P : PmfLearner σ V) (dflt : V) : Learner (σ × Nat) V :=
+  { hasScore := P.hasScore,
+    predict := fun st ctx acts =>
+      let r := P.predict st.1 ctx acts
+      let q := parsePmf dflt acts r.2.1 r.2.2 st.2
+      ((r.1, q.2), q.1),
+    score := fun st ctx acts a => let r := P.score st.1 ctx acts a; ((r.1, st.2), r.2),
+    learn := fun st ctx a r p kw => (P.learn st.1 ctx a r p kw, st.2) }
+
+/-! ## Histories: several evaluations with the same learner object
+
+`evaluate` wraps the learner in a fresh `SafeLearner` every time and keeps nothing itself, so all that connects two
+evaluations is the learner: the next evaluation starts in the state the previous one left it in (an evaluation that
+is rejected by validation never touches the learner). -/
+
+structure Episode (V R : Type) where
+  cfg : Config
+  bs : Option Nat
+  env : List (Dict (Fld V R))
+
+/-- learner state after an evaluation; after a crash the model does not say (the harness then reads the state off the
+real learner) and keeps the old one -/
+def stateAfter {α : Type} (s : σ) : Outcome (σ × α) → σ
+  | .ok r => r.1
+  | _ => s
+
+def runHistory [DecidableEq V] [RewardFn R V] (L : Learner σ V) : σ → List (Episode V R) →
+    List (Outcome (σ × List (Call V) × List (Row V R)))
+  | _, [] => []
+  | s, e :: es =>
+    let o := evaluate e.cfg L e.bs e.env s
+    o :: runHistory L (stateAfter s o) es
+
+/-- the learner state a history ends in -/
+def finalState [DecidableEq V] [RewardFn R V] (L : Learner σ V) : σ → List (Episode V R) → σ
+  | s, [] => s
+  | s, e :: es => finalState L (stateAfter s (evaluate e.cfg L e.bs e.env s)) es
 
 /-! ## Spec `S`: what the property demands, read off the interactions directly -/
 
